@@ -58,8 +58,7 @@ class Network(SimComponent):
             link.setup_for_episode(episode=episode)
 
         for node in self.nodes.values():
-            node.power_on()
-
+            # nodes keep the power state the scenario declared (a reset must behave like a newly built environment)
             for network_interface in node.network_interfaces.values():
                 network_interface.enable()
             # Reset software
